@@ -425,7 +425,13 @@ func (e *Exec) stepBulk(op *Op, mc *model.Coll) {
 	invalid, idRewrite := false, false
 	if !isDelete && wantN > 0 {
 		probeDoc := applyUpd(mc.Docs[matching[0]], upd)
-		if _, touchesID := upd["_id"]; touchesID {
+		touchesID := false
+		for k := range upd {
+			if k == "_id" || strings.HasPrefix(k, "_id.") {
+				touchesID = true
+			}
+		}
+		if touchesID {
 			if invalidDoc(probeDoc) {
 				invalid = true
 			} else {
@@ -1094,6 +1100,8 @@ func (e *Exec) writeBadFile(op *Op, path string) {
 		b, err := os.ReadFile(path)
 		if err != nil || len(b) < 4 {
 			b = []byte(`[{"_id":"7d1d1b0c-5b3f-4f0e-9b55-2f1c5f6b8a11","a":1},{"_id":"`)
+		} else if i := strings.LastIndex(string(b[:len(b)*2/3]), "},{"); i > 0 && len(op.File)%2 == 0 {
+			b = b[:i+1] // cut exactly between two documents
 		} else {
 			b = b[:len(b)/2]
 		}
@@ -1104,6 +1112,12 @@ func (e *Exec) writeBadFile(op *Op, path string) {
 		os.WriteFile(path, []byte(`[1,2,3]`), 0o644)
 	case "badid":
 		os.WriteFile(path, []byte(`[{"_id":"7d1d1b0c-5b3f-4f0e-9b55-2f1c5f6b8a11","a":1},{"_id":"not-a-uuid","a":2}]`), 0o644)
+	case "cutboundary": // an array that ends right after a complete element
+		os.WriteFile(path, []byte(`[{"_id":"7d1d1b0c-5b3f-4f0e-9b55-2f1c5f6b8a11","a":1},{"_id":"7d1d1b0c-5b3f-4f0e-9b55-2f1c5f6b8a12","a":2}`), 0o644)
+	case "cutcomma":
+		os.WriteFile(path, []byte(`[{"_id":"7d1d1b0c-5b3f-4f0e-9b55-2f1c5f6b8a11","a":1},`), 0o644)
+	case "openonly":
+		os.WriteFile(path, []byte(`[`), 0o644)
 	case "nullelem":
 		os.WriteFile(path, []byte(`[{"_id":"7d1d1b0c-5b3f-4f0e-9b55-2f1c5f6b8a11","a":1},null]`), 0o644)
 	case "nonobject":
